@@ -136,6 +136,12 @@ Definition readable (e : entry) : bool :=
 Definition all_readable (fx : bool) (tree : list entry) : bool :=
   forallb readable (filter (selected fx) tree).
 
+(* "every FILE of the tree that carries one of the extensions is a parsable document", and the
+   defect class of F19-dir-suffix: some directory carries one of the extensions *)
+Definition files_readable (fx : bool) (tree : list entry) : bool :=
+  forallb (fun e => e_isdir e || negb (selected fx e) || readable e) tree.
+Definition suffixed_dir (tree : list entry) : bool := existsb (fun e => e_isdir e && selected false e) tree.
+
 (* ---- build_ast_schema(assume_valid=True), as far as C19 needs it: the map from type name to
         body, extensions appended in document order, a later duplicate definition replacing
         the earlier one in place (dict assignment) ---- *)
